@@ -7,6 +7,8 @@ Driver for C02.  One request per line:
   normalize HEX          -> HEX             `helper.normalize`
   struct TOKS            -> JSON            `projSheet (parseSheet yes margins TOKS)`: the DOM projection the
                                             structure kernel + `Model/SheetSpec.lean` give for the token list
+  block TOKS             -> JSON            `projItems (parseDecls yes TOKS)`: a declaration block alone
+                                            (`CSSStyleDeclaration.cssText = tokens`)
   spelled SX             -> TOKS            `render s` for the spelled sheet written as an s-expression
   erase SX               -> JSON            `erase s` in the same JSON as `struct`
 
@@ -423,6 +425,12 @@ def handle (line : String) : String :=
     | some ts =>
       if !tokWF ts then "out-of-domain"
       else jASheet true (projSheet orc CssVerif.Gen.C02.margins (parseSheet orc CssVerif.Gen.C02.margins ts))
+    | none => "bad-op"
+  | ["block", ts] =>
+    match decToks ts with
+    | some ts =>
+      if !tokWF ts then "out-of-domain"
+      else jItems true (projItems (parseDecls orc ts))
     | none => "bad-op"
   | "spelled" :: ws =>
     match (parseSX ws).bind sxSheet with
